@@ -72,6 +72,8 @@ func culpritOf(s *coop.Sched) string {
 
 // RunScenario executes scenario sc once under execution x with the given oracle.
 func RunScenario(sc *Scenario, prop string, oracle Oracle, x *coop.Exec) coop.Outcome {
+	coop.EnableHB(prop == "C19")
+	defer coop.EnableHB(false)
 	w := world.New(sc.Cfg)
 	var out coop.Outcome
 	mk := func(f *Finding, s *coop.Sched) {
@@ -115,6 +117,9 @@ func RunScenario(sc *Scenario, prop string, oracle Oracle, x *coop.Exec) coop.Ou
 		out.Err = s.Err
 		first := strings.SplitN(s.Err.Error(), "\n", 2)[0]
 		out.Signature = prop + "|error|" + first + "|" + sc.Class
+	case len(s.Races) > 0:
+		out.Err = fmt.Errorf("data race: %s", strings.Join(s.Races, "\n  "))
+		out.Signature = prop + "|data-race|" + raceLoc(s.Races[0]) + "|"
 	}
 	if out.Err == nil && !s.Crashed {
 		if sc.Final != nil {
@@ -130,6 +135,17 @@ func RunScenario(sc *Scenario, prop string, oracle Oracle, x *coop.Exec) coop.Ou
 	out.StateHash = hashOf(w.MemDump(), w.StoreDump(), bindSummary(w), cloudSummary(w))
 	out.Nontrivial = len(w.Writers) >= 2
 	return out
+}
+
+// raceLoc extracts the location name from a race report ("write/read on <name>: ...").
+func raceLoc(r string) string {
+	if i := strings.Index(r, " on "); i >= 0 {
+		r = r[i+4:]
+		if j := strings.Index(r, ":"); j >= 0 {
+			return r[:j]
+		}
+	}
+	return r
 }
 
 func bindSummary(w *world.World) string {
